@@ -435,14 +435,17 @@ def gen_valid(rng):
         f = gen_offset_fields(rng)
         key, value, _, _ = enc_offset(f)
         exp = expect_offset(allow, deny, order, f)
-        tags = ["offset", "kv%d" % f["keyver"], "vv%s" % f["valver"]]
+        tags = ["offset", "offset:kv%d" % f["keyver"], "offset:vv%s" % f["valver"]]
         line = line_vo(allow, deny, order, f)
         g = sval(f["group"])
     else:
         f = gen_meta_fields(rng)
         key, value, _, _ = enc_meta(f)
         exp = expect_meta(allow, deny, f)
-        tags = ["metadata", "vv%s" % f["valver"], "members%d" % len(f["members"])]
+        tags = ["metadata", "metadata:vv%s" % f["valver"], "members%d" % len(f["members"])]
+        for m in f["members"]:
+            a = m["assignment"]
+            tags.append("assignment:" + ("null" if a is None else ("empty" if a == "E" else "topics%d" % len(a["topics"]))))
         if f["dup"]:
             tags.append("dup-topic")
         if sval(f["ptype"]) != b"consumer":
@@ -568,3 +571,190 @@ def project(line):
     """What is compared between implementation and model: everything before the '|' (the part after it carries the
     measured allocation on one side and the model's count of make requests on the other)."""
     return line.split("|", 1)[0].strip()
+
+
+# ---------------------------------------------------------------------------------------------
+# exhaustive sweeps of the hostile stream (C06): every truncation point, every length / count field x every special
+# value, every version field x -1..5, on one small well-formed message per kind and version
+# ---------------------------------------------------------------------------------------------
+
+def sweep_bases(rng):
+    """(name, key, value, kenc, venc) for offset key v0/v1 x value v0/v1/v3 and metadata value v0..v3."""
+    out = []
+    for kv in (0, 1):
+        for vv in (0, 1, 3):
+            f = dict(keyver=kv, group=b"grp", topic=b"tp", partition=rng.randrange(0, 1000), valver=vv,
+                     offset=rng.randrange(1, 2**40), epoch=rng.randrange(0, 100), metadata=b"md",
+                     ts=rng.randrange(1, 2**41), expire=rng.randrange(1, 2**41))
+            key, value, k, v = enc_offset(f)
+            out.append(("offset-k%d-v%d" % (kv, vv), key, value, k, v))
+    for vv in (0, 1, 2, 3):
+        mem = lambda i: dict(id=b"m%d" % i, instance=(None if i else b"in"), clientid=b"c%d" % i, host=b"/h%d" % i,
+                             rebalance=5, session=6, subscription=b"\x00\x00\x00\x00\x00\x00",
+                             assignment=dict(ver=0, topics=[(b"t%d" % i, [i, i + 1]), (b"u", [7])], userdata=b""))
+        f = dict(group=b"grp", valver=vv, ptype=b"consumer", generation=3, protocol=b"range", leader=b"m0",
+                 statets=rng.randrange(1, 2**41), members=[mem(0), mem(1)])
+        key, value, k, v = enc_meta(f)
+        out.append(("metadata-v%d" % vv, key, value, k, v))
+    return out
+
+
+def gen_sweep(rng):
+    """All sweep cases: [(line, [kind, mutation-tag])]."""
+    out = []
+    for name, key, value, k, v in sweep_bases(rng):
+        kind = name.split("-")[0]
+        order = rng.randrange(0, 2**40)
+        for i in range(len(key)):
+            out.append((line_msg(0, 0, order, key[:i], value), [kind, "sweep-truncate-key"]))
+        for i in range(len(value)):
+            out.append((line_msg(0, 0, order, key, value[:i]), [kind, "sweep-truncate-value"]))
+        marks = [("k",) + m for m in k.marks] + [("v",) + m for m in v.marks]
+        for side, pos, w, mk, sc in marks:
+            enc = k if side == "k" else v
+            if mk in ("keyver", "valver", "asgver"):
+                vals = [-1, 0, 1, 2, 3, 4, 5]
+                tag = "sweep-version:" + mk
+            else:
+                inner = enc.scopes[sc] - (pos + w)
+                outer = len(enc.b) - (pos + w)
+                vals = sorted(set(special_values(rng, inner, w) + special_values(rng, outer, w)))
+                tag = "sweep-field:" + mk
+            for val in vals:
+                kb, vb = bytearray(key), bytearray(value)
+                put(kb if side == "k" else vb, pos, w, val)
+                out.append((line_msg(0, 0, order, bytes(kb), bytes(vb)), [kind, tag]))
+    return out
+
+
+# ---------------------------------------------------------------------------------------------
+# large hostile messages (8 - 32 KiB): a count or length field promises far more than a message can hold, followed
+# by filler that keeps the decoder busy without making it emit requests
+# ---------------------------------------------------------------------------------------------
+
+def gen_large(rng):
+    size = rng.randrange(8 * 1024, 32 * 1024)
+    shape = rng.choice(["topics-zero-filler", "topics-named-filler", "subscription-blob", "random-filler", "strings"])
+    k = Enc()
+    k.i16(2)
+    k.string(b"grp")
+    key = k.done()
+    v = Enc()
+    ver = rng.choice([0, 1, 2, 3])
+    v.i16(ver)
+    v.string(b"consumer")
+    v.i32(1)
+    v.string(b"range")
+    v.string(b"m0")
+    if ver >= 2:
+        v.i64(12345)
+    v.i32(rng.choice([1, 1, 2, 2**31 - 1]))
+    v.string(b"m0")
+    if ver == 3:
+        v.string(None)
+    v.string(b"c0")
+    v.string(b"/h0")
+    if ver >= 1:
+        v.i32(5)
+    v.i32(6)
+    big = rng.choice([2**31 - 1, size, size // 6, size // 6 + 1, size // 4, 65536, 2**24])
+    if shape == "subscription-blob":
+        v.i32(rng.choice([size, size + 1, 2**31 - 1]))
+        v.b += bytes(size)
+        v.i32(0)
+    elif shape == "strings":
+        # a run of maximal strings: each is allocated only if completely present
+        v.i32(0)
+        v.i32(size)
+        v.i16(0)
+        v.i32(big)
+        while len(v.b) < size:
+            v.i16(rng.choice([32767, 32766, 20000]))
+            v.b += bytes(rng.randrange(0, 256) for _ in range(64)) * 16
+    else:
+        v.i32(0)
+        v.i32(rng.choice([size, 2**31 - 1, size * 2]))
+        v.i16(0)
+        v.i32(big)
+        if shape == "topics-zero-filler":
+            v.b += bytes(size)                                   # topics "" with 0 partitions
+        elif shape == "topics-named-filler":
+            i = 0
+            while len(v.b) < size:
+                v.string(b"%04x" % (i & 0xffff))
+                v.i32(0)
+                i += 1
+        else:
+            v.b += bytes(rng.randrange(0, 256) for _ in range(size))
+    value = v.done()
+    return line_msg(0, 0, rng.randrange(0, 2**40), key, value), ["large", "large:" + shape]
+
+
+# ---------------------------------------------------------------------------------------------
+# C10, reader half: pattern pairs x group names x message kinds
+# ---------------------------------------------------------------------------------------------
+
+C10_GROUPS = [b"a", b"b", b"ab", b"ba", b"", b"x", b"ax", b"xb", b"axb", b"c", b"cab", b"abc", b"xa", b"bx",
+              b"a\n", b"\nb", b"group1", b"A", b"aa", b"bb"]
+C10_KINDS = ["offset-v0", "offset-v1", "offset-v3", "offset-tombstone", "owners", "owners-v3", "clear", "delete",
+             "other-protocol", "owners-cut", "offset-cut"]
+
+
+def c10_message(rng, kind, g):
+    """(key, value) of a message of the given kind for group g (the key is always well-formed)."""
+    if kind.startswith("offset"):
+        vv = {"offset-v0": 0, "offset-v1": 1, "offset-v3": 3, "offset-tombstone": "T", "offset-cut": rng.choice([0, 1, 3])}[kind]
+        f = gen_offset_fields(rng, valver=vv)
+        f["group"] = g
+        key, value, _, _ = enc_offset(f)
+        if kind == "offset-cut" and value:
+            value = value[:rng.randrange(0, len(value))]
+        return key, value
+    vv = 3 if kind == "owners-v3" else rng.choice([0, 1, 2, 3])
+    if kind == "delete":
+        vv = "T"
+    f = gen_meta_fields(rng, maxm=3, maxt=2, maxp=3, valver=vv, long_ok=False)
+    f["group"] = g
+    f["ptype"] = b"connect" if kind == "other-protocol" else b"consumer"
+    if kind == "clear":
+        f["members"] = []
+    elif kind in ("owners", "owners-v3", "owners-cut") and not f["members"]:
+        f["members"] = [gen_member(rng, 2, 3, False, False)]
+    if kind in ("owners", "owners-v3", "owners-cut"):
+        # at least one member with an assigned partition, so that an unfiltered reader forwards something
+        f["members"][0]["assignment"] = dict(ver=0, topics=[(b"t1", [rng.randrange(0, 8)])], userdata=None)
+    key, value, _, _ = enc_meta(f)
+    if kind == "owners-cut" and value:
+        value = value[:rng.randrange(len(value) // 2, len(value))]
+    return key, value
+
+
+def gen_c10(rng, n_random):
+    """[(line, tags, group)]: every pattern pair (49) x the four match classes (a group from the pool that is in the class,
+    where one exists) x three message kinds, then n_random random combinations."""
+    out = []
+    npat = len(PATTERNS)
+
+    def one(allow, deny, g, kind):
+        key, value = c10_message(rng, kind, g)
+        order = rnd_int(rng, I64)
+        line = "c10 %d %d %d %s %s %s" % (allow, deny, order, hx(g), hx(key), hx(value))
+        am = pat_match(allow, g) if allow else False
+        dm = pat_match(deny, g) if deny else False
+        cls = "allow:%s/deny:%s" % (("unset" if not allow else ("match" if am else "nomatch")),
+                                    ("unset" if not deny else ("match" if dm else "nomatch")))
+        return line, ["kind:" + kind, cls, "verdict:" + ("accept" if accept(allow, deny, g) else "reject")], g
+
+    for allow in range(npat):
+        for deny in range(npat):
+            for want_a in (True, False):
+                for want_d in (True, False):
+                    pool = [g for g in C10_GROUPS
+                            if (not allow or pat_match(allow, g) == want_a) and (not deny or pat_match(deny, g) == want_d)]
+                    if not pool or (not allow and not want_a) or (not deny and not want_d):
+                        continue
+                    for kind in ("offset-v%d" % rng.choice([0, 1, 3]), rng.choice(["owners", "owners-v3"]), "clear"):
+                        out.append(one(allow, deny, rng.choice(pool), kind))
+    for _ in range(n_random):
+        out.append(one(rng.randrange(0, npat), rng.randrange(0, npat), rng.choice(C10_GROUPS), rng.choice(C10_KINDS)))
+    return out
